@@ -15,7 +15,7 @@ CONSTANTS
  Tries = 2
  NextHop = 4 Unstable = 24 CacheTO = 4 Inactive = 8 RemoveDelay = 2 SweepEvery = 2 PingEvery = 3 MaxTime = 1000
  CreateGuard = TRUE
- MaxCircuits = 2 MaxData = 2 MaxLoss = 0 MaxDup = 0 MaxAdv = 2 MaxNow = 0
+ MaxCircuits = 1 MaxData = 2 MaxLoss = 0 MaxDup = 0 MaxAdv = 2 MaxNow = 0
  Goals = {1, 2}
  Origins = {o}
  AdvKinds = {"tamper", "splice", "inject", "header", "plain"}
